@@ -9,6 +9,9 @@ use refchess::*;
 use crate::common::*;
 use crate::session::*;
 
+/// full-move numbers b such that (b, b+1) straddles a boundary of a 15/16-bit counter of moves or plies
+pub const MOVE_NUMBER_BOUNDARIES: [u32; 8] = [127, 255, 16383, 32766, 32767, 32768, 65535, 99_998];
+
 pub fn static_pair(p: &Pos, rep: &mut Report) {
     let f = p.flip();
     let (fa, fb) = (p.to_fen(), f.to_fen());
@@ -55,6 +58,20 @@ pub fn terminal(p: &Pos, rep: &mut Report) {
         if !(mover2 < -(1 << 23)) || !(mover2 > mover) {
             rep.violation("mate-score-move-number", format!("{}: mated at move {} = {}, at move {} = {} (own view); later must be better and still lost", fen, p.full, mover, q.full, mover2), json!({"kind":"c11-terminal","fen":fen}));
         }
+        // ... for all full-move numbers: pairs that straddle the boundaries of the counter types
+        for b in MOVE_NUMBER_BOUNDARIES {
+            let mut lo = p.clone();
+            lo.full = b;
+            let mut hi = p.clone();
+            hi.full = b + 1;
+            let (vl, vh) = (static_eval_white(&lo, false), static_eval_white(&hi, false));
+            let (ml, mh) = if p.wtm { (vl, vh) } else { (-vl, -vh) };
+            rep.eval();
+            rep.count("terminal_mate_move_number_boundary_pairs");
+            if !(ml < -(1 << 23)) || !(mh < -(1 << 23)) || !(mh > ml) {
+                rep.violation("mate-score-move-number-boundary", format!("{}: mated at move {} = {}, at move {} = {} (own view); later must be better and both lost", fen, b, ml, b + 1, mh), json!({"kind":"c11-terminal","fen":lo.to_fen()}));
+            }
+        }
     } else {
         rep.count(if p.wtm { "terminal_stalemate_white_to_move" } else { "terminal_stalemate_black_to_move" });
         if v != 0 {
@@ -85,13 +102,49 @@ pub fn search_pair(sess: &mut dyn Driver, p: &Pos, d: u32, rep: &mut Report) {
     if let Some(Reported::Mate(_)) = scores[0] { rep.count("search_pairs_with_mate_score"); }
 }
 
+pub fn flip_mv(m: Mv) -> Mv {
+    Mv { from: sq(file_of(m.from), 7 - rank_of(m.from)), to: sq(file_of(m.to), 7 - rank_of(m.to)), promo: m.promo }
+}
+
+/// The same with a game history: `position fen S moves ...` against the colour-flipped start with
+/// the mirrored moves. Histories come from shuffle games, so positions of the history recur inside
+/// the horizon and the draw-by-repetition value (contempt included) takes part in the score.
+/// Depth <= 2 only: at depth 3 the value of a transposition-table hit can depend on which path
+/// reached it first (repetition counts include the path), and the twins order moves differently.
+pub fn search_pair_with_history(sess: &mut dyn Driver, start: &Pos, moves: &[Mv], d: u32, rep: &mut Report) {
+    let fs = start.flip();
+    let ma: Vec<String> = moves.iter().map(|m| m.uci()).collect();
+    let mb: Vec<String> = moves.iter().map(|m| flip_mv(*m).uci()).collect();
+    let replay = json!({"kind":"c11-history","fen":start.to_fen(),"moves":ma,"depth":d});
+    let mut scores = Vec::new();
+    for (q, ms) in [(start, &ma), (&fs, &mb)] {
+        match search(sess, Some((&Some(q.to_fen()), &ms[..])), &GoSpec::depth(d as u64)) {
+            Ok(o) => scores.push(o.score_at_depth(d).and_then(reported)),
+            Err(e) if e.starts_with("watchdog") => { rep.inconclusive("watchdog fired"); return; }
+            Err(e) => { rep.violation("search-failed", format!("go depth {} on {} moves {:?}: {}", d, q.to_fen(), ms, e), replay); return; }
+        }
+    }
+    rep.eval();
+    rep.count(&format!("search_pairs_with_history_depth_{}", d));
+    // how much repetition the history carries at the root
+    let mut cur = start.clone();
+    let mut seen: Vec<PosKey> = vec![cur.key()];
+    for m in moves { cur = cur.make(*m); seen.push(cur.key()); }
+    let twice_in_reach = cur.legal_moves().iter().any(|m| { let n = cur.make(*m); seen.iter().filter(|k| **k == n.key()).count() >= 2 });
+    if twice_in_reach { rep.count("search_pairs_with_history_third_occurrence_one_ply_away"); rep.distinct_hash(monlib::mix(cur.key().h64(), 7100 + d as u64)); }
+    if scores[0].is_none() || scores[0] != scores[1] {
+        rep.violation(&format!("search-asymmetric-with-history:depth-{}:{}", d, if twice_in_reach { "repetition-in-reach" } else { "other" }), format!("go depth {} after {} moves from {}: {:?}, colour-flipped twin {:?}", d, moves.len(), start.to_fen(), scores[0], scores[1]), replay);
+    }
+}
+
 /// nearer mates score better; same mate at different move numbers gives the same distance
 pub fn mate_order(sess: &mut dyn Driver, p: &Pos, rep: &mut Report) {
     let plies = match forced_mate_plies(p, 3) { Some(x) => x, None => return };
     let n = ((plies + 1) / 2) as i32;
     let replay = json!({"kind":"c11-mate","fen":p.to_fen()});
     let mut q = p.clone();
-    q.full = if p.full > 100 { 3 } else { p.full + 1234 };
+    q.full = match p.key().h64() % 3 { 0 => if p.full > 100 { 3 } else { p.full + 1234 }, _ => { let b = MOVE_NUMBER_BOUNDARIES[(p.key().h64() / 3 % MOVE_NUMBER_BOUNDARIES.len() as u64) as usize]; b + (p.key().h64() / 64 % 2) as u32 } };
+    if q.full >= 30000 { rep.count("mate_distance_checks_at_move_number_boundaries"); }
     let mut got = Vec::new();
     for x in [p, &q] {
         match search(sess, Some((&Some(x.to_fen()), &[])), &GoSpec::depth(plies as u64)) {
@@ -175,6 +228,18 @@ pub fn run(args: &monlib::Args, rep: &mut Report) {
             gen::walk(&mut rng, &s, gen::Policy::Tactical, len).0.pop().unwrap()
         };
         if p.legal_moves().is_empty() || p.half > 60 { continue; }
+        let mut p = p;
+        if i % 3 == 0 && rng.gen_range(0..3) == 0 {
+            // all full-move numbers: the twins of a pair sit on different sides of a ply boundary
+            p.full = MOVE_NUMBER_BOUNDARIES[rng.gen_range(0..MOVE_NUMBER_BOUNDARIES.len())] + rng.gen_range(0..2);
+            rep.count("search_pairs_at_move_number_boundaries");
+        }
+        if i % 4 == 1 {
+            if let Some(g) = crate::c10::shuffle_game(&mut rng) {
+                let k = rng.gen_range(0..=g.moves.len());
+                search_pair_with_history(&mut sess, &g.start, &g.moves[..k], rng.gen_range(1..=2), rep);
+            }
+        }
         let d = rng.gen_range(1..=3);
         search_pair(&mut sess, &p, d, rep);
         if i % 3 == 0 { mate_order(&mut sess, &p, rep); }
@@ -191,6 +256,11 @@ pub fn replay(case: &monlib::Value, rep: &mut Report) {
         "c11-static" => static_pair(&p, rep),
         "c11-terminal" => terminal(&p, rep),
         "c11-mate" => { let mut s = InProc::new(); mate_order(&mut s, &p, rep); }
+        "c11-history" => {
+            let mut s = InProc::new();
+            let ms: Vec<Mv> = case["moves"].as_array().map(|a| a.iter().filter_map(|v| v.as_str().and_then(Mv::from_uci)).collect()).unwrap_or_default();
+            search_pair_with_history(&mut s, &p, &ms, case["depth"].as_u64().unwrap_or(2) as u32, rep);
+        }
         _ => { let mut s = InProc::new(); search_pair(&mut s, &p, case["depth"].as_u64().unwrap_or(2) as u32, rep); }
     }
 }
